@@ -169,6 +169,26 @@ func objectSize(args ...Object) Object {
 		bin, _ := path.(*Binary)
 
 		return &Number{Value: float64(len(bin.Value))}
+	case ObjectTypeList:
+		list, _ := path.(*List)
+
+		return &Number{Value: float64(len(list.Value))}
+	case ObjectTypeMap:
+		m, _ := path.(*Map)
+
+		return &Number{Value: float64(len(m.Value))}
+	case ObjectTypeStringSet:
+		set, _ := path.(*StringSet)
+
+		return &Number{Value: float64(len(set.Value))}
+	case ObjectTypeNumberSet:
+		set, _ := path.(*NumberSet)
+
+		return &Number{Value: float64(len(set.Value))}
+	case ObjectTypeBinarySet:
+		set, _ := path.(*BinarySet)
+
+		return &Number{Value: float64(len(set.Value))}
 	}
 
 	return newError("type not supported: size %s", path.Type())
